@@ -26,6 +26,13 @@ Theorem C17_normalize_idempotent : forall s, normalize (normalize s) = normalize
 Proof. exact normalize_idempotent. Qed.
 Print Assumptions C17_normalize_idempotent.
 
+(* normalize AS WRITTEN - NEWLINES_RE.sub("\n", src) then NULL_RE.sub(U+FFFD, ...), the two regular expressions regenerated
+   from /repo on every run and run by the backtracking matcher - is the direct function above, on every string *)
+From MD Require Import Lemmas.NormalizeRe.
+Theorem C17_normalize_regex_is_direct : forall s, normalize_re s = normalize s.
+Proof. exact normalize_re_eq. Qed.
+Print Assumptions C17_normalize_regex_is_direct.
+
 Example C17_nonvacuous :
   normalize (reencode [1; 2; 0; 2] [97; 10; 98; 10; 10; 99; 0; 10]) = [97; 10; 98; 10; 10; 99; 65533; 10]
   /\ reencode [1; 2; 0; 2] [97; 10; 98; 10; 10; 99; 0; 10] = [97; 13; 10; 98; 13; 10; 10; 99; 0; 13].
